@@ -80,7 +80,8 @@ func scanSpecDirs(dirs []string, scanFn scanSpecFunc) error {
 				if errors.Is(err, fs.ErrNotExist) {
 					return nil
 				}
-				return err
+				// report the failure, let scanFn decide whether to go on
+				return scanFn(path, priority, nil, err)
 			}
 			// first call from Walk is for dir itself, others we skip
 			if info.IsDir() {
